@@ -27,6 +27,11 @@ PT_RUNTIME = PT + (r'(generate_validator_constructor|generate_func_call|_get_anc
                    r'_generate_union_class_vars|_generate_base_namespace_module|'
                    r'_generate_struct_class_slots|_generate_struct_class_init))$')
 
+# the emission primitives every generator is written with: what they put in the output buffer is
+# part of what each generated-code property promises
+EMIT = r'stone\.backend\.(Backend|CodeBackend)\.(emit\w*|make_indent|indent|block|generate_multiline_list|' \
+       r'filter_out_none_valued_keys|process_doc)$'
+
 OWN = {
     'C01': [F + r'lexer\.', F + r'parser\.', F + r'frontend\.',
             IG + r'(generate_IR|_populate_|_validate_|_merge_patches|_resolve_|_create_|_check_|'
@@ -50,7 +55,7 @@ OWN = {
             BASE + r'Attribute\.__get__$'],
     'C08': [PT_RUNTIME, VAL + r'\w+\.(validate\w*|__init__)$', BASE + r'(Attribute\.__set__|Union\.__init__)$',
             PT + r'(generate_validator_constructor|generate_func_call)$'],
-    'C09': [PT, B + r'python_helpers\.', API + r'ApiNamespace\.get_imported_namespaces$'],
+    'C09': [EMIT, PT, B + r'python_helpers\.', API + r'ApiNamespace\.get_imported_namespaces$'],
     'C10': [PT_RUNTIME, DT + r'\w+\.(check|check_example|_compute_example\w*|get_examples|_add_example\w*|'
                  r'_has_example)$', IG + r'(_populate_field_defaults|_create_struct_field)$',
             PT + r'PythonTypesBackend\.(_generate_struct_attributes_defaults|'
@@ -69,12 +74,12 @@ OWN = {
             VAL + r'(\w*Redactor)\.', DT + r'(Field|Alias)\.set_annotations$',
             DT + r'\w+\.get_all_omitted_callers$',
             IG + r'(_validate_annotations|_validate_field_can_be_tagged_with_redactor)'],
-    'C14': [B + r'python_client\.', B + r'python_helpers\.(fmt_func|fmt_obj|check_route_name_conflict)$',
+    'C14': [EMIT, B + r'python_client\.', B + r'python_helpers\.(fmt_func|fmt_obj|check_route_name_conflict)$',
             r'stone\.backend\.remove_aliases_from_api$', r'stone\.ir\.data_types\.(unwrap|resolve)_'],
-    'C15': [B + r'python_type_stubs\.', B + r'python_type_mapping\.'],
-    'C16': [B + r'js_client\.', B + r'js_types\.', B + r'js_helpers\.', B + r'tsd_client\.',
+    'C15': [EMIT, B + r'python_type_stubs\.', B + r'python_type_mapping\.'],
+    'C16': [EMIT, B + r'js_client\.', B + r'js_types\.', B + r'js_helpers\.', B + r'tsd_client\.',
             B + r'tsd_types\.', B + r'tsd_helpers\.', B + r'helpers\.'],
-    'C17': [B + r'swift\.', B + r'swift_types\.', B + r'swift_client\.', B + r'swift_helpers\.',
+    'C17': [EMIT, B + r'swift\.', B + r'swift_types\.', B + r'swift_client\.', B + r'swift_helpers\.',
             B + r'obj_c\.', B + r'obj_c_types\.', B + r'obj_c_client\.', B + r'obj_c_helpers\.'],
     'C18': [r'stone\.backend\.', r'stone\.compiler\.',
             r'stone\.cli\.(_actual_outputs|_validate_expected_output_manifest)$',
